@@ -192,12 +192,14 @@ def layout_rules(repo, rep):
     return True
 
 
-def interp_rules(repo, rep):
+def interp_rules(repo, rep, only=None, fields=(0, 1, 2, 3)):
     """node addressing and interpolation algebra of ntv2_bilinear / ntv2_bicubic"""
     sub = repo.cls('geodepy.ntv2reader', 'SubGrid')
     syms = dict((n, Rat.sym('G.' + n)) for n in ('s_lat', 'n_lat', 'e_long', 'w_long', 'lat_inc', 'long_inc', 'gs_count'))
     for mname, oname, stencil in (('ntv2_bilinear', 'bilinear', [(0, 0), (0, 1), (1, 0), (1, 1)]),
                                   ('ntv2_bicubic', 'bicubic', [(dr, dc) for dr in range(-1, 3) for dc in range(-1, 3)])):
+        if only is not None and mname not in only:
+            continue
         f = sub.methods.get(mname)
         if f is None:
             raise AnalysisError('anchor vanished: SubGrid.%s' % mname)
@@ -208,7 +210,10 @@ def interp_rules(repo, rep):
         fobj = FileV('gsb')
         ev.files.append(fobj)
         ps = [p.name for p in f.params]
-        args = {ps[0]: me, ps[1]: Rat.sym('lat'), ps[2]: Rat.sym('lon'), ps[3]: Rat.sym('num_cols'), ps[4]: Rat.sym('row'), ps[5]: Rat.sym('col'),
+        # position written as node (row, col) plus fractional offsets (X, Y) of a cell: keeps the forms polynomial in X, Y
+        LAT = syms['s_lat'] + (Rat.sym('row') + Rat.sym('Y')) * syms['lat_inc']
+        LON = syms['e_long'] + (Rat.sym('col') + Rat.sym('X')) * syms['long_inc']
+        args = {ps[0]: me, ps[1]: LAT, ps[2]: LON, ps[3]: Rat.sym('num_cols'), ps[4]: Rat.sym('row'), ps[5]: Rat.sym('col'),
                 ps[6]: fobj, ps[7]: Rat.sym('start')}
         val = ev.call_function(f, args)
         base = 'R-TABLE::geodepy/ntv2reader.py::SubGrid.%s::' % mname
@@ -235,12 +240,12 @@ def interp_rules(repo, rep):
         orc = Oracle(ORACLE)
         fo = FileV('gsb')
         orc.ev.files.append(fo)
-        xy = orc.call('weights', lat=Rat.sym('lat'), lon=Rat.sym('lon'), s_lat=syms['s_lat'], e_long=syms['e_long'], lat_inc=syms['lat_inc'],
+        xy = orc.call('weights', lat=LAT, lon=LON, s_lat=syms['s_lat'], e_long=syms['e_long'], lat_inc=syms['lat_inc'],
                       long_inc=syms['long_inc'], row=Rat.sym('row'), col=Rat.sym('col'))
         if not isinstance(val, Tup) or len(val.items) != 4:
             rep.undecided('R-TABLE', base + 'shape', w, '%s does not return four fields' % mname)
             continue
-        for k in range(4):
+        for k in fields:
             ref = orc.call(oname, f=fo, start_byte=Rat.sym('start'), num_cols=Rat.sym('num_cols'), row=Rat.sym('row'), col=Rat.sym('col'), k=C(k),
                            x=xy.items[0], y=xy.items[1])
             a = alg.unfold_all(val.items[k], 6000) if isinstance(val.items[k], Rat) else None
@@ -444,7 +449,8 @@ def run(repo, rep):
 def controls(repo):
     out = []
     src = repo.sources['geodepy/ntv2reader.py']
-    out.append(('derivative-node', text_variant(repo, 'geodepy/ntv2reader.py', 'x11 = (n12 - n2) / 2', 'x11 = (n13 - n2) / 2'), 'ntv2_bicubic::field'))
-    out.append(('stencil-offset', text_variant(repo, 'geodepy/ntv2reader.py', 'pos9 = pos8 + num_cols', 'pos9 = pos8 + num_cols + 1'), 'ntv2_bicubic::'))
-    out.append(('header-offset', text_variant(repo, 'geodepy/ntv2reader.py', "            # GS_COUNT\n            f.seek(8, 1)\n            byte = f.read(4)", "            # GS_COUNT\n            f.seek(4, 1)\n            byte = f.read(4)"), 'read_ntv2_file'))
+    bic = lambda r, rp: interp_rules(r, rp, only=('ntv2_bicubic',), fields=(0,))
+    out.append(('derivative-node', text_variant(repo, 'geodepy/ntv2reader.py', 'x11 = (n12 - n2) / 2', 'x11 = (n13 - n2) / 2'), 'ntv2_bicubic::field', bic))
+    out.append(('stencil-offset', text_variant(repo, 'geodepy/ntv2reader.py', 'pos9 = pos8 + num_cols', 'pos9 = pos8 + num_cols + 1'), 'ntv2_bicubic::', bic))
+    out.append(('header-offset', text_variant(repo, 'geodepy/ntv2reader.py', "            # GS_COUNT\n            f.seek(8, 1)\n            byte = f.read(4)", "            # GS_COUNT\n            f.seek(4, 1)\n            byte = f.read(4)"), 'read_ntv2_file', layout_rules))
     return out
